@@ -333,6 +333,28 @@ def _r3(ctx):
         okg = o['o'] == 'arg' and field_path(o['p']) == ['value']
     rep.check(okg, 'R3', 'get_value-reads-own-cell', where(sb_get), 'returns SharedValue::get_value(self.value)',
               'StandardBasis::get_value does not simply return its own cell\'s value', 'undecidable-shape')
+    # the undo field: the field of the handle in which set_value captures the cell's value before it writes the cell (`old` in
+    # the reference tree; the name is the code's, the role is this).  reset_value must then write exactly that field back.
+    OLD = 'old'
+    try:
+        from ..celltables import recorder as _rec
+        from ..sym import SYM as _SYM, SymEx as _SX
+        _sx = _SX(f, models=[_rec({'basis::SharedValue::set_value': 'cellwrite'})])
+        _outs = _sx.run(sb_set, [_SYM('self'), _SYM('x')])
+        _cands = None
+        for _o in _outs:
+            _seen, _names = False, set()
+            for _e in _o.effects:
+                if _e[0] == ('rec', 'cellwrite'):
+                    _seen = True
+                elif not _seen and isinstance(_e[0], tuple) and _e[0][0] == 'sym' and str(_e[0][1]).startswith('self.') and \
+                        _e[1] == _SYM('self.value.value') and _e[0][1].count('.') == 1:
+                    _names.add(_e[0][1][5:])
+            _cands = _names if _cands is None else (_cands & _names)
+        if _cands and len(_cands) == 1 and not _sx.aborted:
+            OLD = sorted(_cands)[0]
+    except Exception:      # noqa: BLE001
+        pass
     # set_value, path-sensitively: on EVERY path the pre-write value of the cell is captured in self.old before the
     # (single) cell write, and the write targets the handle's own cell
     from ..celltables import recorder
@@ -347,7 +369,7 @@ def _r3(ctx):
             for e in o.effects:
                 if e[0] == ('rec', 'cellwrite'):
                     seq.append(('w', e[1][0]))
-                elif e[0] == SYM('self.old'):
+                elif e[0] == SYM('self.' + OLD):
                     seq.append(('old', e[1]))
             writes = [i for i, x in enumerate(seq) if x[0] == 'w']
             caps = [i for i, x in enumerate(seq) if x[0] == 'old']
@@ -378,7 +400,7 @@ def _r3(ctx):
         a1 = trs.origin(t['args'][1])
         rep.check(a0['o'] == 'arg' and a0['l'] == 1 and field_path(a0['p']) == ['value'], 'R3',
                   'reset-targets-own-cell', where(sb_reset, bi), 'writes self.value', 'reset_value writes a different cell')
-        rep.check(a1['o'] == 'arg' and a1['l'] == 1 and field_path(a1['p']) == ['old'], 'R3',
+        rep.check(a1['o'] == 'arg' and a1['l'] == 1 and field_path(a1['p']) == [OLD], 'R3',
                   'reset-writes-old', where(sb_reset, bi), 'value written = self.old',
                   'reset_value restores something other than the captured old value (origin: %s %s)'
                   % (a1['o'], field_path(a1.get('p', []))))
@@ -390,7 +412,7 @@ def _r3(ctx):
             if not w:
                 continue
             for e in pl['p']:
-                if isinstance(e, dict) and e.get('n') == 'old' and e.get('of', '').startswith('basis::StandardBasis'):
+                if isinstance(e, dict) and e.get('n') == OLD and e.get('of', '').startswith('basis::StandardBasis'):
                     n += 1
                     rep.check(body is sb_set, 'R3', 'old-has-single-writer:%s' % body.path, where(body, bi),
                               'only set_value assigns old', 'StandardBasis.old is also assigned in %s' % body.path)
